@@ -367,11 +367,33 @@ def gen_table(rng, schema, n=None, ragged=False, nan_ok=False):
     return t
 
 
+LAST_FORM = [None]
+
+
+def numpy_like_form(form):
+    """does pa.scalar / pa.array(..., from_pandas=True) read NaN as missing for a row offered in this form?  python lists and
+    pandas tables do (the table's columns are converted through pandas), Arrow arrays inside a dict are taken as they are"""
+    return form != "dict_arrow"
+
+
+def denan_lrow(r, numpy_like):
+    if r is None or not numpy_like:
+        return r
+    return [[None if (isinstance(v, float) and v != v) else v for v in f] for f in r]
+
+
+def cq_lrow_conv(r, numpy_like):
+    """the offered row as the model sees it: the conversion is the model's (ExtArray.from_pandas)"""
+    return f"(option_map (map (from_pandas {cq_bool(numpy_like)})) {cq_lrow(r)})"
+
+
 def table_to_value(rng, schema, t, form=None):
-    """python-level value offered to the library for one row"""
+    """python-level value offered to the library for one row (the chosen form is left in LAST_FORM)"""
     if t is None:
+        LAST_FORM[0] = "na"
         return rng.choice([None, pd.NA])
     form = form or rng.choice(["dict", "df_arrow", "df_arrow", "dict_arrow"])
+    LAST_FORM[0] = form
     if form == "dict":
         return {k: list(v) for k, v in t.items()}
     if form == "dict_arrow":
@@ -520,31 +542,44 @@ def op_setitem(rng, inp, malformed=False, via_series=False, force_multi=False, f
         vkind = rng.choice(["row", "nea", "nea"])
         ragged = False
     if vkind == "row" or (cnt == 0 and rng.random() < 0.5 and not via_series and not force_multi):
-        t = None if ((rng.random() < 0.25 and not force_ragged) or via_series) else gen_table(rng, schema, ragged=ragged)
+        t = None if ((rng.random() < 0.25 and not force_ragged) or via_series) else gen_table(rng, schema, ragged=ragged, nan_ok=True)
         value = table_to_value(rng, schema, t)
-        mval = f"(SRow {cq_lrow(table_to_lrow(schema, t))})"
-        sval = f"(ARow {cq_lrow(table_to_lrow(schema, t))})"
-        vrows = [table_to_lrow(schema, t)] * cnt
+        nl = numpy_like_form(LAST_FORM[0])
+        mval = f"(SRow {cq_lrow_conv(table_to_lrow(schema, t), nl)})"
+        sval = f"(ARow {cq_lrow_conv(table_to_lrow(schema, t), nl)})"
+        vrows = [denan_lrow(table_to_lrow(schema, t), nl)] * cnt
         vdesc = {"kind": "row", "ragged": ragged and t is not None}
     else:
         m = cnt
         if malformed and rng.random() < 0.3 and cnt > 0:
             m = cnt - 1    # too few values
-        ts = [None if rng.random() < 0.2 else gen_table(rng, schema) for _ in range(m)]
+        ts = [None if rng.random() < 0.2 else gen_table(rng, schema, nan_ok=True) for _ in range(m)]
         if ragged and ts:
             j = rng.randrange(len(ts))
-            ts[j] = gen_table(rng, schema, ragged=True)
+            ts[j] = gen_table(rng, schema, ragged=True, nan_ok=True)
         lrows = [table_to_lrow(schema, t) for t in ts]
         if vkind == "nea" and not ragged:
             st = gen.struct_type(schema)
             value = NEA(pa.array([None if t is None else t for t in ts], type=st))
+            nls = [False] * len(ts)             # an Arrow array: values as they are
         elif rng.random() < 0.3 and not ragged:
             value = pd.Series([table_to_value(rng, schema, t, "df_arrow") if t is not None else None for t in ts],
                               dtype=object)
+            nls = [True] * len(ts)
         else:
-            value = [table_to_value(rng, schema, t) for t in ts]
-        mval, sval = f"(SRows {cq_lrows(lrows)})", f"(ARows {cq_lrows(lrows)})"
-        vrows = lrows
+            value, nls = [], []
+            for t in ts:
+                value.append(table_to_value(rng, schema, t))
+                nls.append(numpy_like_form(LAST_FORM[0]))
+        if not isinstance(value, NEA) and not any(isinstance(v, pd.DataFrame) for v in value):
+            # a sequence without tables is first offered to Arrow AS A WHOLE (pa.array(seq, type), no from_pandas): when that
+            # works NaN stays a value in every element; only when it fails are the elements converted one by one
+            bulk = attempt(lambda: pa.array(value, type=gen.struct_type(schema)))
+            if bulk[0] == "ok":
+                nls = [False] * len(ts)
+        conv = cq_list(cq_lrow_conv(r, b) for r, b in zip(lrows, nls))
+        mval, sval = f"(SRows {conv})", f"(ARows {conv})"
+        vrows = [denan_lrow(r, b) for r, b in zip(lrows, nls)]
         vdesc = {"kind": vkind, "n": m, "ragged": ragged}
         # pa.array(value, type=struct) accepts an EMPTY DataFrame element as a struct with null fields
         # (a non-empty one makes it fail and the library falls back to boxing row by row), and an
